@@ -25,7 +25,7 @@ LEVEL = "model_checking"
 RULE = (
     "LIFE machine (idle / armed[after-timer + invoked child machine + delayed send] / done[final state that itself invokes a failing service] / failing[unhandled service "
     "error], spawnChild with systemId whose child arms delayed sendParent with and without a send id, stopChild); "
-    "operation alphabet {start, E, FIN, FAIL, SPAWN, KILL, ARM, BACK, stop, TICK (1 s), WAIT (30 ms: only polling helper threads move), "
+    "operation alphabet {start, E, FIN, FAIL, SPAWN, KILL, ARM, BACK, stop, TICK (1 s), WAIT (30 ms: only polling helper threads move), MID (320 ms: between deadlines armed together), "
     "snapshot+restore, snapshot+restore+start}; BFS over operation sequences to the depth bound, deduplicated by "
     "canonical state (status, configuration, context, actors, registry, pending timer/thread census, loop-task "
     "liveness, restored flag); every (state, op) step is judged: allowed status edge, start idempotent / refused after "
@@ -42,7 +42,7 @@ ASSUMPTIONS = [
     "TICK advances virtual time by 1 s with the default schedule (timers in deadline order); other orders are C08/C09's subject",
 ]
 ENGINES = ("sync", "async")
-OPS = ["start", "E", "FIN", "FAIL", "SPAWN", "KILL", "ARM", "BACK", "stop", "TICK", "WAIT", "SR", "SRS"]
+OPS = ["start", "E", "FIN", "FAIL", "SPAWN", "KILL", "ARM", "BACK", "stop", "TICK", "WAIT", "MID", "SR", "SRS"]
 ALLOWED = {
     ("uninitialized", "running"), ("running", "done"), ("running", "error"), ("running", "stopped"),
     ("done", "stopped"), ("error", "stopped"), ("uninitialized", "done"), ("uninitialized", "error"),
@@ -165,6 +165,10 @@ class Life:
             err = self.d.stop()
         elif op == "TICK":
             self.d.advance(1.0)
+        elif op == "MID":
+            # 320 virtual ms: BETWEEN the deadlines of timers that were armed together (the child's delayed sends are due
+            # after 300 and 350 ms) - one of several tasks of one owner has finished, the others are still pending
+            self.d.advance(0.32)
         elif op == "WAIT":
             # 30 virtual ms: no timer of the machine is due, but polling helper threads (actor runners) get past a poll
             self.d.advance(0.03)
@@ -236,7 +240,7 @@ class Life:
                 self.problems.append(("stop-did-not-stop", f"{status0} -> {status1}"))
             if status1 == "stopped":
                 self.check_released(kids_before, op)
-        elif op in ("TICK", "WAIT"):
+        elif op in ("TICK", "WAIT", "MID"):
             if status0 in ("stopped", "done", "error") and acted and status0 == "stopped":
                 self.problems.append(("delivery-after-stop", f"{[e[:3] for e in acted][:4]}"))
             if status0 == "stopped":
